@@ -461,7 +461,28 @@ fn key_trace() -> String {
     })
 }
 
+/// The static key behind an external key holder.  Its serialized form is an opaque HANDLE, not the scalar: the scalar's
+/// encoding XOR a fixed per-group mask (PROTOCOL.md), so code that mistakes the handle for key material misbehaves
+/// visibly, and the all-zero handle exists (scalar == mask, a valid key in every group).
 pub struct HKey<KG: KeGroup>(PrivateKey<KG>);
+
+/// mask(G): 0x40 repeated, with the most significant byte cleared where the group needs a small one
+/// (ristretto255: little-endian, last byte 0; P-521: big-endian, first byte 0).
+fn hmask<KG: KeGroup>() -> Vec<u8> {
+    let n = <KG::SkLen as Unsigned>::USIZE;
+    let mut m = vec![0x40u8; n];
+    let name = core::any::type_name::<KG>();
+    if name.contains("Ristretto") {
+        m[n - 1] = 0;
+    } else if name.contains("P521") {
+        m[0] = 0;
+    }
+    m
+}
+
+fn hxor<KG: KeGroup>(b: &[u8]) -> Vec<u8> {
+    b.iter().zip(hmask::<KG>()).map(|(x, m)| x ^ m).collect()
+}
 
 impl<KG: KeGroup> Clone for HKey<KG> {
     fn clone(&self) -> Self {
@@ -485,10 +506,17 @@ impl<KG: KeGroup> SecretKey<KG> for HKey<KG> {
         self.0.public_key().map_err(InternalError::into_custom)
     }
     fn serialize(&self) -> GenericArray<u8, Self::Len> {
-        self.0.serialize()
+        GenericArray::clone_from_slice(&hxor::<KG>(&self.0.serialize()))
     }
     fn deserialize(input: &[u8]) -> Result<Self, InternalError<u32>> {
-        PrivateKey::deserialize(input).map(HKey).map_err(InternalError::into_custom)
+        if input.len() != <KG::SkLen as Unsigned>::USIZE {
+            return Err(InternalError::SizeError {
+                name: "handle",
+                len: <KG::SkLen as Unsigned>::USIZE,
+                actual_len: input.len(),
+            });
+        }
+        PrivateKey::deserialize(&hxor::<KG>(input)).map(HKey).map_err(InternalError::into_custom)
     }
 }
 
@@ -596,6 +624,18 @@ macro_rules! suite {
                 CredentialRequest, CredentialResponse, CredentialFinalization, ServerRegistration,
                 ServerSetup, ClientRegistration, ClientLogin, ServerLogin);
 
+            /// setups travel on the line protocol in plain form (static key = scalar); inside the harness an external-key
+            /// setup holds the handle: XOR the mask over the static-key field (seed | static key | fake key), an involution
+            fn handle_form(b: &[u8]) -> Vec<u8> {
+                let (nh, nsk) = (<OH as digest::Digest>::output_size(), <KG as KeGroup>::SkLen::USIZE);
+                let mut v = b.to_vec();
+                if v.len() >= nh + nsk {
+                    let x = hxor::<KG>(&v[nh..nh + nsk]);
+                    v[nh..nh + nsk].copy_from_slice(&x);
+                }
+                v
+            }
+
             fn ids<'a>(u: &'a Option<Vec<u8>>, s: &'a Option<Vec<u8>>) -> Identifiers<'a> {
                 Identifiers { client: u.as_deref(), server: s.as_deref() }
             }
@@ -604,7 +644,7 @@ macro_rules! suite {
             /// traced nor failed, the trace starts with the operation proper.
             fn xsetup(i: usize, t: &str, failat: u32) -> R<XSetup> {
                 key_arm(0);
-                let s = XSetup::deserialize(&bytes(t)?).map_err(|e| argerr(i, pe(&e)))?;
+                let s = XSetup::deserialize(&handle_form(&bytes(t)?)).map_err(|e| argerr(i, pe(&e)))?;
                 key_arm(failat);
                 Ok(s)
             }
@@ -952,15 +992,15 @@ macro_rules! suite {
                         let mut rng = tape(a[0])?;
                         let sk = bytes(a[1])?;
                         key_arm(int(a[2])?);
-                        let kp = lib(KeyPair::<KG, HKey<KG>>::from_private_key_slice(&sk))?;
+                        let kp = lib(KeyPair::<KG, HKey<KG>>::from_private_key_slice(&hxor::<KG>(&sk)))?;
                         let s = XSetup::new_with_key(&mut rng, kp);
-                        vec![hx(&s.serialize()), rng.pos.to_string(), key_trace()]
+                        vec![hx(&handle_form(&s.serialize())), rng.pos.to_string(), key_trace()]
                     }
                     "ext_dec_setup" => {
                         let b = bytes(a[0])?;
                         key_arm(int(a[1])?);
-                        let s = lib(XSetup::deserialize(&b))?;
-                        vec![hx(&s.serialize()), key_trace()]
+                        let s = lib(XSetup::deserialize(&handle_form(&b)))?;
+                        vec![hx(&handle_form(&s.serialize())), key_trace()]
                     }
                     "ext_srv_reg_start" => {
                         let setup = xsetup(1, a[0], int(a[3])?)?;
